@@ -272,6 +272,22 @@ def coq_make(targets, timeout=3000):
     return rc == 0, o + e
 
 
+def guard_genmid():
+    """GenMid.v is generated text: it must compile, and in bounded time (Coq's inference can be
+    exponential on shapes the translator has not met).  If it does not, it is replaced by a stub and
+    every middle-layer bridge reports "not available" — never a verdict by itself."""
+    gd = os.path.join(BUILD, "gen")
+    rc, o, e = sh("timeout -k 10 900 make -f Makefile.coq GenMid.vo", cwd=COQB, timeout=1000)
+    if rc == 0:
+        return
+    why = "GenMid.v (generated by tools/cmid.py) did not compile within 900 s on the current sources: " + " ".join((o + e).split())[-300:]
+    with open(os.path.join(COQB, "GenMid.v"), "w") as f:
+        f.write("(* GenMid.v: the generated file did not compile; replaced by a stub *)\nRequire Import Base GenLeaf.\n")
+    with open(os.path.join(gd, "GenMid.json"), "w") as f:
+        json.dump({"translated": [], "unsupported": {"*": why}}, f)
+    sh("make -f Makefile.coq GenMid.vo", cwd=COQB, timeout=300)
+
+
 def hygiene():
     """no axioms / admits / disabled checks anywhere in the development"""
     bad = []
@@ -701,6 +717,8 @@ def check_property(prop, tier, seed):
             ok, coq_log = coq_make([target] + [m + ".vo" for m in extra_modules(prop)])
             if ok:
                 discharged = len(obligations)
+                if prop in MID:
+                    guard_genmid()
                 mid_mod, mid_why = mid_module(prop)
                 if mid_mod:
                     # the code-level bridge of the middle layer: a SECOND tie between model and code (the
@@ -975,6 +993,7 @@ def do_setup():
         with Lock("build"):
             ensure_gen()
             sync_coq()
+            guard_genmid()
             ok, lg = coq_make(["all"], timeout=7000)
             if not ok:
                 errs = re.findall(r'File "\./([^"]+)", line (\d+)', lg)
